@@ -109,8 +109,7 @@ def part_runs(ctx, broken):
         for k, c in enumerate(out["es_calls"]):
             sizes = [g[1].shape[0] for g in c["gens"]]
             for kind, key, msg in _es_problems(c):
-                if kind != "nan-candidates":
-                    kinds_es[kind] = kinds_es.get(kind, 0) + 1
+                kinds_es[kind] = kinds_es.get(kind, 0) + 1      # "nan-candidates" is counted in addition to the call's own kind
                 if key:
                     _viol(ctx, key, f"{c['cls']} (mu={c['mu']}, lamb={c['lamb']}, generations {sizes}): {msg}",
                           dict(kind="run", cfg=cfg, es_index=k))
@@ -167,7 +166,8 @@ def part_runs(ctx, broken):
         c = es_meta[len(es_meta) // 2][2]
         ctx.sample(dict(part="es", cls=c["cls"], lamb=c["lamb"], generations=[g[1].shape[0] for g in c["gens"]],
                         returned=c["ret"] if (c["ret"] is None or isinstance(c["ret"], str)) else [c["ret"][0].tolist(), c["ret"][1]]))
-    ctx.oblige("monitor:es", "monitor", not kinds_es.get("bad") and not kinds_es.get("unobserved"), json.dumps(kinds_es))
+    ctx.oblige("monitor:es", "monitor", not kinds_es.get("bad") and not kinds_es.get("unobserved") and not kinds_es.get("nan-candidates"),
+               json.dumps(kinds_es))
     ctx.oblige("monitor:search_step", "monitor", not kinds_st.get("bad"), json.dumps(kinds_st))
     enough = kinds_es.get("ok", 0) >= 20 and kinds_st.get("ok", 0) >= 20
     if not ctx.oblige("coverage:runs", "correspondence", enough, f"es ok={kinds_es.get('ok', 0)} steps ok={kinds_st.get('ok', 0)}"):
@@ -240,10 +240,10 @@ def search(ctx, broken):
         for cfg in S.panel(True, ctx.seed + 17 * extra) + [S.extra_band_cfg(ctx.seed + 17 * extra, j) for j in range(6)]:
             out = S.run_bads(cfg)
             for k, c in enumerate(out["es_calls"]):
-                kind, msg, key = S.es_monitor(c)
-                if kind == "bad":
-                    ctx.violate(key, f"{c['cls']}: {msg}", dict(kind="run", cfg=cfg, es_index=k))
-                    return True
+                for kind, key, msg in _es_problems(c):
+                    if kind in ("bad", "nan-candidates"):
+                        ctx.violate(key, f"{c['cls']}: {msg}", dict(kind="run", cfg=cfg, es_index=k))
+                        return True
             for k, s in enumerate(out["steps"]):
                 kind, msg = S.step_monitor(s)
                 if kind == "bad":
